@@ -272,9 +272,11 @@ func (c *Conn) OpenUpstream(ctx context.Context, sessionID string, opts ...Upstr
 
 	var resp *message.UpstreamOpenResponse
 	err := c.send(ctx, func(ctx context.Context) error {
+		// take the current wire connection; the exchange itself must not hold the mutex other calls need
 		c.wireConnMu.Lock()
-		defer c.wireConnMu.Unlock()
-		r, err := c.wireConn.SendUpstreamOpenRequest(ctx, &message.UpstreamOpenRequest{
+		wireConn := c.wireConn
+		c.wireConnMu.Unlock()
+		r, err := wireConn.SendUpstreamOpenRequest(ctx, &message.UpstreamOpenRequest{
 			SessionID:      upconf.SessionID,
 			AckInterval:    *upconf.AckInterval,
 			ExpiryInterval: upconf.ExpiryInterval,
@@ -570,9 +572,11 @@ func (c *Conn) SendMetadata(ctx context.Context, meta message.SendableMetadata, 
 				Persist: opt.Persist,
 			},
 		}
+		// take the current wire connection; the exchange itself must not hold the mutex other calls need
 		c.wireConnMu.Lock()
-		defer c.wireConnMu.Unlock()
-		resp, err := c.wireConn.SendUpstreamMetadata(ctx, upmeta)
+		wireConn := c.wireConn
+		c.wireConnMu.Unlock()
+		resp, err := wireConn.SendUpstreamMetadata(ctx, upmeta)
 		if err != nil {
 			return err
 		}
